@@ -667,14 +667,15 @@ pub trait BrokerOperations<O: BrokerOrder, Q: BrokerQuote>:
         let shares = order.get_shares();
         let value = shares * *price;
         match order.get_order_type::<T>() {
-            BrokerOrderType::MarketBuy => {
+            BrokerOrderType::MarketBuy | BrokerOrderType::LimitBuy | BrokerOrderType::StopBuy => {
                 if self.get_cash_balance() > value {
                     return Ok(());
                 }
                 Err(InsufficientCashError)
             }
-            BrokerOrderType::MarketSell => Ok(()),
-            _ => unreachable!("Shouldn't hit unless something has gone wrong"),
+            BrokerOrderType::MarketSell
+            | BrokerOrderType::LimitSell
+            | BrokerOrderType::StopSell => Ok(()),
         }
     }
 
